@@ -15,6 +15,7 @@ import (
 	"runtime/debug"
 	"sort"
 	"strings"
+	"sync"
 
 	"github.com/sdcio/yang-parser/compile"
 	"github.com/sdcio/yang-parser/parse"
@@ -23,6 +24,7 @@ import (
 
 	"verif/dump"
 	"verif/genyang"
+	"verif/sched"
 	"verif/super"
 	"verif/tape"
 )
@@ -146,7 +148,101 @@ func libFrame() string {
 	}
 }
 
+// schedTape, when set, draws the interleaving of the compiler's own goroutines (trees whose compiler
+// starts goroutines: simrt.ConcurrentCompile); nil means the reference schedule (lowest worker first,
+// run to completion).
+var schedTape *tape.Tape
+var schedSwitches, schedSteps int
+
+// underScheduler runs f as worker 0 of a baton scheduler when the compiler under test is concurrent;
+// goroutines it starts (simrt.Go) become workers, its channels, locks, Once and WaitGroup operations
+// are switch points. Otherwise it just calls f.
+func underScheduler(r *result, f func()) {
+	if !simrt.ConcurrentCompile {
+		f()
+		return
+	}
+	simrt.ResetChannels()
+	simrt.ResetSync()
+	simrt.Sim = &simrt.Simulator{Spawn: sched.Spawn, Blocked: sched.Blocked, Event: sched.Unlocked}
+	simrt.YieldHook = sched.Yield
+	simrt.BlockedHook, simrt.UnlockHook = sched.Blocked, sched.Unlocked
+	defer func() {
+		simrt.Sim, simrt.YieldHook, simrt.BlockedHook, simrt.UnlockHook = nil, nil, nil, nil
+	}()
+	t := schedTape
+	strategy, param := 0, 1
+	if t != nil {
+		strategy, param = t.Draw(3), 1+t.Draw(6)
+	}
+	pick := func(runnable []int, last int) int {
+		if t == nil {
+			for _, id := range runnable {
+				if id == last {
+					return id
+				}
+			}
+			return runnable[0]
+		}
+		if strategy == 1 { // sticky
+			for _, id := range runnable {
+				if id == last && t.Draw(param+1) != 0 {
+					return id
+				}
+			}
+		}
+		return runnable[t.Draw(len(runnable))]
+	}
+	s := sched.New(pick)
+	if t != nil {
+		s.Level = []uint32{0, 2, 16}[t.Draw(3)]
+	}
+	s.MaxSteps = 3000000
+	s.Add(func() {
+		defer func() {
+			if p := recover(); p != nil {
+				r.panicked = true
+				r.pval = fmt.Sprint(p)
+				r.pframe = libFrame()
+			}
+		}()
+		f()
+	})
+	var wg sync.WaitGroup
+	s.Run(func(body func()) {
+		wg.Add(1)
+		go func() { defer wg.Done(); body() }()
+	})
+	schedSteps += len(s.Steps)
+	last := -1
+	for _, st := range s.Steps {
+		if st.Worker != last && last >= 0 {
+			schedSwitches++
+		}
+		last = st.Worker
+	}
+	if s.Abandoned() {
+		super.EndProcessAfterCase()
+		states := s.States()
+		if s.Overrun {
+			r.hung = "no-progress-under-scheduler"
+		} else if !states[0].Done {
+			var sites []string
+			for _, ws := range states {
+				if !ws.Done {
+					sites = append(sites, ws.Site)
+				}
+			}
+			r.hung = "deadlock@" + strings.Join(sites, ",")
+		}
+		return // (compile returned but a goroutine it started is blocked for good: not this property's business)
+	}
+	wg.Wait()
+	s.Close()
+}
+
 type result struct {
+	hung     string // the compile did not return under the scheduler (deadlock among its goroutines / step limit)
 	parseErr error
 	err      error
 	panicked bool
@@ -204,10 +300,15 @@ func compileOnce(texts map[string]string, order []string, fc compile.FeaturesChe
 		mods[t.Root.Argument().String()] = t
 	}
 	var ms schema.ModelSet
-	if ex == nil {
-		ms, r.err = compile.CompileParseTrees(nil, mods, fc, skipUnknown, curFilter)
-	} else {
-		ms, r.err = compile.CompileParseTrees(ex, mods, fc, skipUnknown, curFilter)
+	underScheduler(&r, func() {
+		if ex == nil {
+			ms, r.err = compile.CompileParseTrees(nil, mods, fc, skipUnknown, curFilter)
+		} else {
+			ms, r.err = compile.CompileParseTrees(ex, mods, fc, skipUnknown, curFilter)
+		}
+	})
+	if r.panicked || r.hung != "" {
+		return
 	}
 	if r.err == nil && wantDump {
 		if ms == nil {
@@ -308,6 +409,13 @@ func (w world) RunCase(t *tape.Tape, st *super.Stats) *super.Violation {
 		}
 	}
 	super.SetHangInfo(setDesc)
+	if d := os.Getenv("VERIF_C11_DUMPSET"); d != "" {
+		// debugging aid: write the case's module texts (replay a crash with this set to see what was compiled)
+		for n, txt := range texts {
+			os.WriteFile(d+"/"+n+".yang", []byte(txt), 0o644)
+		}
+		os.WriteFile(d+"/DESC", []byte(fmt.Sprintf("ops=%v features=%v filter=%s\n", set.Ops, set.Features, filters[fi].name)), 0o644)
+	}
 
 	// R0: reference
 	simrt.Order = nil
@@ -327,6 +435,10 @@ func (w world) RunCase(t *tape.Tape, st *super.Stats) *super.Violation {
 			st.Seen("parse_rejects", super.Hash(r0.parseErr.Error()[strings.Index(r0.parseErr.Error(), ":")+1:]))
 		}
 		return nil
+	}
+	if r0.hung != "" {
+		return &super.Violation{Class: "hang", Sig: "hang|" + strings.SplitN(r0.hung, "@", 2)[0],
+			Detail: fmt.Sprintf("compile does not return under the reference schedule of its own goroutines: %s\n%s", r0.hung, setDesc())}
 	}
 	if r0.panicked {
 		return &super.Violation{Class: "panic-escaped", Sig: "panic-escaped|" + r0.pframe,
@@ -381,6 +493,8 @@ func (w world) RunCase(t *tape.Tape, st *super.Stats) *super.Violation {
 		}
 		rec := &orderRec{t: t, st: st, siteMax: map[string]int{}, siteHits: map[string]int{}}
 		simrt.Order = rec.hook
+		schedTape = t
+		sw0 := schedSwitches
 		var rj result
 		if ex != nil {
 			rj = compileOnce(texts, po, fc, ex, skipUnknown, true)
@@ -388,6 +502,11 @@ func (w world) RunCase(t *tape.Tape, st *super.Stats) *super.Violation {
 			rj = compileOnce(texts, po, fc, nil, skipUnknown, true)
 		}
 		simrt.Order = nil
+		schedTape = nil
+		if st != nil && simrt.ConcurrentCompile {
+			st.Inc("compiles_under_scheduler")
+			st.Add("fault:schedule-switch", int64(schedSwitches-sw0))
+		}
 		inc("compiles")
 		if super.Noting() {
 			super.Note(rj.verdict(), fmt.Sprint(rj.err), fmt.Sprint(super.Hash(rj.canon)), fmt.Sprint(super.Hash(rj.strict)), strings.Join(rec.applied, ";"))
@@ -414,6 +533,10 @@ func (w world) RunCase(t *tape.Tape, st *super.Stats) *super.Violation {
 				l = l[:12]
 			}
 			return strings.Join(l, "\n  ")
+		}
+		if rj.hung != "" {
+			return &super.Violation{Class: "hang", Sig: "hang|" + strings.SplitN(rj.hung, "@", 2)[0],
+				Detail: fmt.Sprintf("compile does not return under a drawn schedule of its own goroutines: %s\n%s\n%s", rj.hung, what, setDesc())}
 		}
 		if rj.panicked {
 			return &super.Violation{Class: "panic-escaped", Sig: "panic-escaped|" + rj.pframe,
